@@ -217,6 +217,9 @@ Fixpoint afree (e : expr) : bool :=
   | EAnyC e1 | EAllC e1 | EJoin e1 | ESplit e1 | ESortBy e1 => afree e1
   | EAs src _ body => afree src && afree body
   | EReduce src _ init body => afree src && afree init && afree body
+  | EObject es =>
+      (fix all (l : list (expr * expr)) : bool :=
+         match l with [] => true | (k, v) :: r => afree k && afree v && all r end) es
   end.
 
 Lemma ret_ro_true e : ret_ro e true = true.
@@ -224,6 +227,21 @@ Proof.
   induction e; cbn [ret_ro]; try reflexivity; try assumption.
   - destruct o; reflexivity.
   - rewrite IHe2. assumption.
+Qed.
+
+Lemma pair_calc_ext st l r : ext_res st (lift2 pair_calc st l r).
+Proof. unfold lift2, pair_calc. ext_auto. Qed.
+
+Lemma obj_entries_ext ev ro vs c es :
+  (forall ke ve, In (ke, ve) es ->
+     (forall vs' ctx st, ext_res st (ev ke ro vs' ctx st)) /\ (forall vs' ctx st, ext_res st (ev ve ro vs' ctx st))) ->
+  forall acc st, ext_res st (obj_entries ev ro vs c es acc st).
+Proof.
+  induction es as [|[ke ve] es IH]; intros H acc st; cbn [obj_entries]; [apply ext_ok|].
+  destruct (H ke ve (or_introl eq_refl)) as [Hk Hv].
+  apply ext_bind.
+  - apply cross_ext; try assumption; [apply no_short_ok | intros; apply pair_calc_ext].
+  - intros o Ho. apply ext_bind_pure. intros pairs. apply IH. intros k v Hin. apply H. right. assumption.
 Qed.
 
 Ltac split_afree H :=
@@ -257,6 +275,7 @@ Proof.
   - (* ELit *) go IH.
   - (* EKey *) go IH.
   - (* EIndex *)
+    match goal with |- ext_res _ (if ?b then _ else _) => destruct b; [exact I|] end.
     rewrite ret_ro_true.
     assert (Hl : afree e = true) by (destruct idx; split_afree Hf; assumption).
     assert (Hc : afree (ECollect idx) = true) by (destruct idx; split_afree Hf; cbn [afree]; (assumption || reflexivity)).
@@ -295,8 +314,8 @@ Proof.
   - (* EAll *) go IH.
   - (* EAnyC *) go IH.
   - (* EAllC *) go IH.
-  - (* EJoin *) exact I.
-  - (* ESplit *) exact I.
+  - (* EJoin *) go IH.
+  - (* ESplit *) go IH.
   - (* EAs *)
     split_afree Hf.
     assert (Hbody : forall l ln vs' cx st1,
@@ -320,6 +339,18 @@ Proof.
   - (* EPath *) go IH.
   - (* EGetKey *) go IH.
   - (* EParent *) go IH.
+  - (* EObject *)
+    destruct entries as [|e0 es0]; [apply ext_alloc_fresh|].
+    destruct ctx; [exact I|].
+    apply each_ext. intros c0 st0 _. apply ext_bind.
+    + apply obj_entries_ext. intros ke ve Hin.
+      assert (Hkv : afree ke = true /\ afree ve = true).
+      { change (afree (EObject (e0 :: es0)) = true) in Hf. revert Hin Hf. generalize (e0 :: es0). intros l.
+        induction l as [|[k1 v1] l IHl]; intros Hin Hf; [contradiction|]. cbn [afree] in Hf, IHl.
+        apply andb_true_iff in Hf as [Hf1 Hf2]. apply andb_true_iff in Hf1 as [Hk1 Hv1].
+        destruct Hin as [Heq|Hin]; [injection Heq as <- <-; split; assumption | apply IHl; assumption]. }
+      destruct Hkv as [Hk Hv]. split; intros; apply IH; assumption.
+    + intros r Hr. apply each_ext. intros. apply ext_alloc_fresh.
   - (* EEmpty *) go IH.
 Qed.
 
